@@ -479,7 +479,7 @@ def gen_mc_case(rng, small=False, force_simple=False):
     # glue dimensions: how the same numbers are handed in
     c['layout'] = rng.choice(['copy', 'copy', 'strided', 'offset', 'readonly'])
     c['ranges_form'] = rng.choice(['list', 'list', 'inplace', 'setter'])
-    c['mean_form'] = rng.choice(['int', 'int', 'float', 'np.int64', 'np.float64', '0d'])
+    c['mean_form'] = rng.choice(['int', 'int', 'float', 'float-frac', 'np.int64', 'np.float64', '0d'])
     c['nlist_form'] = rng.choice(['list', 'ndarray'])
     c['same_rss'] = rng.random() < 0.5
     for G in groups:
@@ -783,7 +783,7 @@ class McRun(object):
         self.rss = fx.make_rss(self.case['seed'], budget=self.case.get('budget', 300000))
         before = self.snapshot()
         self.snap_before = before
-        form = {'int': int, 'float': float, 'np.int64': np.int64, 'np.float64': np.float64,
+        form = {'int': int, 'float': float, 'float-frac': (lambda v: float(v) + 0.9), 'np.int64': np.int64, 'np.float64': np.float64,
                 '0d': lambda v: np.array(int(v))}[self.case.get('mean_form', 'int')]
         try:
             (n_signal, d) = self.gen.generate_signal_events(
@@ -1532,6 +1532,11 @@ def _run(ctx):
                         'drawn (dataset, group) owns a valid candidate of positive probability — otherwise the code loops forever '
                         '(open finding redraw-endless-no-valid-candidate)',
                         'exact agreement on the consumption of the random stream is a diagnostic, not a verdict (see notes)',
+                        'the rounding the driver runs on doubles (rintF = round-half-even, then to int) is ASSUMED to satisfy RoundOK (0 -> 0, '
+                        'non-negative -> non-negative): Float is opaque to the kernel; proved for the rational version (c18_rintQ_ok), compared on every run',
+                        'c18_full_pipeline: inputs non-negative (MC weights, flux values, source weights, live times, unit factors), half band '
+                        'width > 0, batch sizes > 0, some candidate of positive weight — the quantifier of the property; weights >= 0 is then proved '
+                        '(c18_table_weights_nonneg), not assumed',
                         'sources not within 1e-12 (in cos dec) of a pole for c18_rotation_preserves_sep; exact poles: c18_offset_cos_sep_pole']
 
     # ---------------- A. dist
@@ -1644,6 +1649,12 @@ def _run(ctx):
         ctx.count('mc:requested-reject=%s' % c['reject'])
         ctx.count('mc:datasets=%d' % len(c['dss']))
         ctx.count('mc:mode=' + c.get('mode', 'int'))
+        for dim in ('layout', 'ranges_form', 'mean_form', 'nlist_form'):
+            ctx.count('mc:%s=%s' % (dim, c.get(dim, 'default')))
+        if c.get('extra_field'):
+            ctx.count('mc:field-of-one-dataset-only')
+        if c.get('same_rss'):
+            ctx.count('mc:history-on-one-rss-object')
         for G in c['groups']:
             ctx.count('mc:sources-per-group=%d' % len(G['sources']))
             for s_ in G['sources']:
@@ -1771,7 +1782,7 @@ def _run(ctx):
 
 
 MANIFEST = dict(
-    text=('Lean theorems about the executable model of the signal injection (36): per-dataset numbers add up to the total (any scalar type), '
+    text=('Lean theorems about the executable model of the signal injection (53; whole pipeline: c18_full_pipeline — batched candidate table, normalisation, CDF, draw, relocation, validity of the relocated event, redraw, output buffers; object state: shared sig_kwargs dictionary, cached candidates across change_shg_mgr; position angle and separation kept as angles): per-dataset numbers add up to the total (any scalar type), '
           'are non-negative and zero for zero-weight datasets (with machine-checked counterexamples for the two repaired defects: negative '
           'count, events lost through zip with a short generator list); aggregation over the per-dataset generators conserves the count; '
           'weighted choice never returns an item of zero probability; end to end (c18_injected_from_band): generation fed with the table '
@@ -1784,8 +1795,7 @@ MANIFEST = dict(
           'totals) on synthetic set-ups; output oracles search the implementation for failing inputs.'),
     note=('Termination of the redraw loop is assumed (fuel in the model); the code loops forever when a drawn (dataset, group) has no valid '
           'candidate (open finding). Poisson sampler, flux-model values, detector signal yields and astropy itself are inputs / compared '
-          'numerically; relocation is not applied inside the model\'s generate (rows carry the source index; the oracle checks the offset from '
-          'that source); batch loop and object caches are exercised by the harness only. Theorems are over ordered fields / the reals, not '
+          'numerically; the per-source loop of the post-processing is modelled row by row; RA wrapping into [0, 2pi) and the Poisson sampler are not modelled. Theorems are over ordered fields / the reals, not '
           'IEEE doubles; position-angle preservation is checked by the oracle only. Agreement on the use of the random stream is diagnostic.'),
     design='DESIGN.md section 4 C18; design.d/C18.md',
     technique='Lean 4 proof (induction over deviate lists / event lists / buffers, real algebra and trigonometry) + model/implementation '
